@@ -79,8 +79,8 @@ PROPERTIES = {
     ),
     'C08': dict(
         units=['u_iter', 'u_handles'],
-        finders=['find_limit_slice', 'find_handles_setops'],
-        level_text="Narrow claim, two parts. (1) LIMIT: deductive proof (Verus/Z3), for any lawful inner iterator and any begin/end (positive, negative, zero, mixed), that LimitIter::next yields exactly the elements of the LIMIT slice of the unlimited results, in order: a ghost function future() of the iterator state is proved to equal slice_spec(all results, begin, end) for a fresh iterator, and every call returns its head and advances it (or returns None exactly when it is empty); no overflow, termination. (2) The handle collections that carry unions and constraint intersections (Handles, instantiated at one handle type): contains / position / add / union / intersection / contains_subset / sort / from_iter with their sorted fast paths against set semantics - union's members are exactly those of both operands and it adds no duplicates, intersection keeps exactly the common members - and against the representation invariant that the sorted flag is only set on a sorted array (every binary search has a sorted slice as a proved precondition). Constraint-order independence, sub-queries, STAMQL = builder = iterator API and ADD/DELETE equivalence are 2600 lines of boxed iterator plumbing over the high-level API and are NOT claimed.",
+        finders=['find_limit_slice', 'find_handles_setops', 'find_query_semantics'],
+        level_text="Narrow claim, two parts. (1) LIMIT: deductive proof (Verus/Z3), for any lawful inner iterator and any begin/end (positive, negative, zero, mixed), that LimitIter::next yields exactly the elements of the LIMIT slice of the unlimited results, in order: a ghost function future() of the iterator state is proved to equal slice_spec(all results, begin, end) for a fresh iterator, and every call returns its head and advances it (or returns None exactly when it is empty); no overflow, termination. (2) The handle collections that carry unions and constraint intersections (Handles, instantiated at one handle type): contains / position / add / union / intersection / contains_subset / sort / from_iter with their sorted fast paths against set semantics - union's members are exactly those of both operands and it adds no duplicates, intersection keeps exactly the common members - and against the representation invariant that the sorted flag is only set on a sorted array (every binary search has a sorted slice as a proved precondition). (3) Bounded stand-in, thorough tier only, labelled and never counted as proved: the query engine itself (QueryIter: 2600 lines of boxed iterator plumbing outside the verifier's reach) is run on a 12-annotation store over 9 constraints - every ordered pair as a conjunction must give the intersection of the single-constraint results whichever is written first, every pair as a disjunction their union without duplicates, LIMIT n the first n; two failing inputs of this stand-in are recorded known findings (constraint RESOURCE is order dependent). Sub-queries, STAMQL = builder = iterator API and ADD/DELETE equivalence are NOT claimed.",
         level_note="Trusted: vstd's prophetic iterator laws for the inner iterator (obeys_prophetic_iter_laws, finite: decrease() is Some), isize::abs/unsigned_abs specs, 64-bit usize; the range end of one for-loop is hoisted into a local (R-hoist). Handles: Cow<[H]> treated as Vec<H> (R-cow), T::FullHandleType instantiated at AnnotationHandle (R-instantiate); std slice operations binary_search (on a sorted slice), contains, sort_unstable, derived PartialOrd, zip/all, clone are outlined with their std meaning; Vec::retain with the stateful closure of intersection is trusted to call the (lifted and verified) closure once per element in order.",
         design_ref='DESIGN.md §7.7',
         explanation="LIMIT as a slice: state-to-future ghost function plus transition lemmas; Handles: membership-form set contracts plus the sorted-flag invariant",
